@@ -204,7 +204,7 @@ func ruleBoundsSign(r *Report) {
 		// no iterator is handed out on a path that never compared the bounds (an "empty range" short cut in front of it)
 		unchecked := ""
 		for _, rs := range nilReturns(fn) {
-			if rs.Block != cmp.Block && !cmp.Block.Dominates(rs.Block) {
+			if rs.Block != cmp.Block && !dominates(cmp.Block, rs.Block) {
 				unchecked = r.P.Pos(rs.Pos())
 			}
 		}
@@ -318,7 +318,7 @@ func ruleBoundsSign(r *Report) {
 			var incs []Site
 			eachInstr(fn, func(s Site) {
 				if bo, ok := s.Instr.(*ssa.BinOp); ok && bo.Op == token.ADD {
-					if k, ok := constInt(bo.Y); ok && k == 1 && s.Block != c.Block && reachableFromSite(c, s) && c.Block.Dominates(s.Block) {
+					if k, ok := constInt(bo.Y); ok && k == 1 && s.Block != c.Block && reachableFromSite(c, s) && dominates(c.Block, s.Block) {
 						incs = append(incs, s)
 					}
 				}
@@ -537,7 +537,7 @@ func ruleWrap(r *Report) {
 func guardedSub(s Site, bo *ssa.BinOp) bool {
 	fn := s.Fn
 	for _, b := range liveBlocks(fn) {
-		if len(b.Instrs) == 0 || !b.Dominates(s.Block) || b == s.Block {
+		if len(b.Instrs) == 0 || !dominates(b, s.Block) || b == s.Block {
 			continue
 		}
 		iff, ok := b.Instrs[len(b.Instrs)-1].(*ssa.If)
@@ -550,10 +550,10 @@ func guardedSub(s Site, bo *ssa.BinOp) bool {
 		}
 		// which successor leads to s?
 		var viaTrue, viaFalse bool
-		if b.Succs[0] == s.Block || b.Succs[0].Dominates(s.Block) {
+		if b.Succs[0] == s.Block || dominates(b.Succs[0], s.Block) {
 			viaTrue = true
 		}
-		if b.Succs[1] == s.Block || b.Succs[1].Dominates(s.Block) {
+		if b.Succs[1] == s.Block || dominates(b.Succs[1], s.Block) {
 			viaFalse = true
 		}
 		if viaTrue == viaFalse {
@@ -720,7 +720,7 @@ func ruleDiskSearch(r *Report) {
 	fn := r.NeedFunc(rule, "sstables.DiskKeyIndex.binarySearch")
 	if fn != nil {
 		// the loop header: an If on `phi < phi` that one successor can reach again
-		var hdr *ssa.BasicBlock
+		var hdr, hdrBody, hdrExit *ssa.BasicBlock
 		var iPhi, jPhi *ssa.Phi
 		for _, b := range liveBlocks(fn) {
 			if len(b.Instrs) == 0 {
@@ -730,24 +730,27 @@ func ruleDiskSearch(r *Report) {
 			if !ok {
 				continue
 			}
-			bo, ok := iff.Cond.(*ssa.BinOp)
-			if !ok || bo.Op != token.LSS {
-				continue
-			}
-			x, okX := bo.X.(*ssa.Phi)
-			y, okY := bo.Y.(*ssa.Phi)
-			if !okX || !okY || x.Block() != b || y.Block() != b {
-				continue
-			}
-			if reachFrom(b.Succs[0], nil)[b] && !reachFrom(b.Succs[1], nil)[b] {
-				hdr, iPhi, jPhi = b, x, y
+			_ = iff
+			for _, v := range ifCmpForms(b) {
+				if v.Op != token.LSS {
+					continue
+				}
+				x, okX := v.X.(*ssa.Phi)
+				y, okY := v.Y.(*ssa.Phi)
+				if !okX || !okY || x.Block() != b || y.Block() != b {
+					continue
+				}
+				if reachFrom(v.T, nil)[b] && !reachFrom(v.F, nil)[b] {
+					hdr, iPhi, jPhi = b, x, y
+					hdrBody, hdrExit = v.T, v.F
+				}
 			}
 		}
 		key := rule + "/sstables.DiskKeyIndex.binarySearch/no-verdict-inside-loop"
 		if hdr == nil {
 			r.Missing(rule, key, "search loop `for i < j` not found")
 		} else {
-			removed := map[Edge]bool{{hdr, hdr.Succs[1]}: true}
+			removed := map[Edge]bool{{hdr, hdrExit}: true}
 			var early []Site
 			for _, nr := range nilReturns(fn) {
 				if siteReachable(nr, removed) {
@@ -762,12 +765,12 @@ func ruleDiskSearch(r *Report) {
 			// the EOF edge inside the loop: j = probe, i unchanged
 			key = rule + "/sstables.DiskKeyIndex.binarySearch/eof-probe-lowers-upper-bound"
 			loop := map[*ssa.BasicBlock]bool{}
-			for b := range reachFrom(hdr.Succs[0], nil) {
+			for b := range reachFrom(hdrBody, nil) {
 				if reachFrom(b, nil)[hdr] {
 					loop[b] = true
 				}
 			}
-			loop[hdr.Succs[0]] = true
+			loop[hdrBody] = true
 			var probe ssa.Value
 			var probeSite Site
 			for _, s := range CallsIn(fn, Keys("sstables.DiskKeyIndex.findAt")) {
